@@ -460,4 +460,50 @@ example : (crun 18 .vault (⟨100 * u18, []⟩, 0)
 example : FCont.take ⟨100 * u18, []⟩ 1 2 .vault = .error (.invalidAmount .vault 1) := by decide
 example : FCont.WF ⟨30 * u18, [70 * u18, 60 * u18]⟩ := ⟨by decide, by decide⟩
 
+/-! ### non-fungible containers -/
+
+/-- **NF: only liquid ids can be taken, and taking never touches the locks.** A successful
+`take_non_fungibles` (withdraw / burn / recall by ids) needs every requested id in the *liquid* set, removes
+nothing but liquid ids, and leaves the lock table unchanged — an id behind a live proof is not liquid
+(it was moved out by `lock_non_fungibles`), so it stays in the container. -/
+theorem nf_take_needs_liquid (c c' : NCont) (ids : List Nat) (w : Who) (h : c.take ids w = .ok c') :
+    (∀ i ∈ ids, i ∈ c.liquid) ∧ (∀ y ∈ c'.liquid, y ∈ c.liquid) ∧ c'.locked = c.locked := by
+  unfold NCont.take at h
+  cases ht : takeIds c.liquid w ids with
+  | error e => simp [ht] at h
+  | ok l =>
+    simp only [ht, Except.ok.injEq] at h; subst h
+    obtain ⟨h1, h2⟩ := takeIds_needs_liquid w ids ht
+    exact ⟨h1, h2, rfl⟩
+
+/-- **NF: overlapping proofs share the locked ids.** Creating a proof over ids that are already locked
+takes nothing more out of the liquid set (only the not-yet-locked ids must be liquid), and each id gets
+one more lock. -/
+theorem nf_lock_spec (c c' : NCont) (ids : List Nat) (w : Who) (h : c.lock ids w = .ok c') :
+    c'.locked = c.locked ++ ids ∧ (∀ i ∈ ids, i ∈ c.locked ∨ i ∈ c.liquid) ∧ (∀ y ∈ c'.liquid, y ∈ c.liquid) := by
+  unfold NCont.lock at h
+  cases ht : takeIds c.liquid w (ids.filter (fun i => !(c.locked.contains i))) with
+  | error e => rw [ht] at h; cases h
+  | ok l =>
+    simp only [ht, Except.ok.injEq] at h; subst h
+    obtain ⟨h1, h2⟩ := takeIds_needs_liquid w _ ht
+    refine ⟨rfl, ?_, h2⟩
+    intro i hi
+    by_cases hl : i ∈ c.locked
+    · exact Or.inl hl
+    · right; apply h1; simp [hi, hl]
+
+/-- **NF: a proof of already locked ids is always possible** (max-not-sum for id sets). -/
+theorem nf_lock_locked_ok (c : NCont) (ids : List Nat) (w : Who) (hall : ∀ i ∈ ids, i ∈ c.locked) :
+    c.lock ids w = .ok { c with locked := c.locked ++ ids } := by
+  unfold NCont.lock
+  have : ids.filter (fun i => !(c.locked.contains i)) = [] := by
+    rw [List.filter_eq_nil_iff]; intro i hi; simp [hall i hi]
+  rw [this]; rfl
+
+example : (NCont.lock ⟨[1, 2, 3], []⟩ [2, 3] .vault) = .ok ⟨[1], [2, 3]⟩ := by decide
+example : (NCont.take ⟨[1], [2, 3]⟩ [2] .vault) = .error (.missingId .vault 2) := by decide
+example : (NCont.lock ⟨[1], [2, 3]⟩ [3] .vault) = .ok ⟨[1], [2, 3, 3]⟩ := by decide
+example : (NCont.unlock ⟨[1], [2, 3, 3]⟩ [2, 3]) = .ok ⟨[1, 2], [3]⟩ := by decide
+
 end Radix.Res
